@@ -632,6 +632,35 @@ async def c16_function_get(w):
             "expected": {"while-registered": "a service wrapper", "after-removal": "StateVal 'on' (the name is the state variable script.porch again)"}}
 
 
+async def c14_executor(w):
+    """task.executor on the real code: the function's return value - an exception instance included - comes back as a value;
+    an exception it raises is raised in the caller."""
+    from custom_components.pyscript.trigger import TrigTime
+    hass = await boot()
+    loop = asyncio.get_running_loop()
+    hass.async_add_executor_job = lambda target, *args: loop.run_in_executor(None, target, *args)
+    TrigTime.hass = hass
+    err = ValueError("the last error, returned as a value")
+    seen = []
+
+    def f(a, kw=None):
+        seen.append((a, kw))
+        if a == "raise":
+            raise KeyError("job failed")
+        return err if a == "exc-object" else (a, kw)
+    out = {}
+    for what in ("value", "exc-object", "raise"):
+        try:
+            out[what] = ("returned", await asyncio.wait_for(TrigTime.user_task_executor(f, what, kw=7), 10))
+        except Exception as e:  # noqa
+            out[what] = ("raised", e)
+    await shutdown()
+    ok = out["value"] == ("returned", ("value", 7)) and out["exc-object"][0] == "returned" and out["exc-object"][1] is err \
+        and out["raise"][0] == "raised" and isinstance(out["raise"][1], KeyError) and len(seen) == 3
+    return {"reproduced": not ok, "observed": {k: (v[0], repr(v[1])) for k, v in out.items()},
+            "expected": {"value": "returned ('value', 7)", "exc-object": "returned the ValueError instance", "raise": "raised KeyError"}}
+
+
 async def c12_outgoing(w):
     """service.call / domain.service() with control-keyword look-alikes; data delivered must equal the given kwargs
     minus control keywords of the recognised type."""
